@@ -330,8 +330,12 @@ def codec_line(c, val=None):
     if c["cmd"] == "dec":
         return f"dec {c['ty']} {c['hex']}"
     v = val if val is not None else c["val"]
-    if c["cmd"] == "enc":
-        return f"enc {c['ty']} {v}"
+    if c["cmd"] in ("enc", "encu", "encit"):
+        return f"{c['cmd']} {c['ty']} {v}"
+    if c["cmd"] == "urt":
+        return f"urt {c['ty']} {v} {c.get('sfx', '-')}"
+    if c["cmd"] == "xrt":
+        return f"xrt {c['ty']} {v} {c.get('ty2', c['ty'])} {c.get('sfx', '-')}"
     return f"rt {c['ty']} {v} {c.get('sfx', '-')}"
 
 
@@ -356,10 +360,14 @@ def _run_codec_side(exe, cases, lines, wd, tag, shards, timeout, env=None):
         k = 0
         with open(path, "w") as f:
             for j in range(lo, hi):
-                if cases[j]["env"] != cur:
-                    cur = cases[j]["env"]
-                    f.write(f"E {cur}\n")
+                key = (cases[j]["env"], cases[j].get("env2"))
+                if key != cur:
+                    cur = key
+                    f.write(f"E {key[0]}\n")
                     k += 1
+                    if key[1] is not None:
+                        f.write(f"E2 {key[1]}\n")
+                        k += 1
                 f.write(lines[j] + "\n")
                 k += 1
         outp = os.path.join(wd, f"{tag}.{i}.out")
